@@ -63,7 +63,7 @@ pub fn rule_kind(r: &Rule) -> Kind {
         Rule::Single { .. } => Kind::Single,
         Rule::Multiple { .. } => Kind::Multiple,
         Rule::Ligature { .. } => Kind::Ligature,
-        Rule::Chain { .. } | Rule::Ignore { .. } => Kind::Chain,
+        Rule::Chain { .. } | Rule::ChainMultiple { .. } | Rule::Ignore { .. } => Kind::Chain,
         Rule::SinglePos { .. } => Kind::SinglePos,
         Rule::PairPos { .. } => Kind::PairPos,
     }
@@ -75,6 +75,8 @@ pub enum Action {
     InlineSingle(Vec<(Gid, Gid)>),
     /// inline ligature substitution of the whole input sequence
     InlineLigature(Gid),
+    /// inline multiple substitution of the (only) input glyph
+    InlineMultiple(Vec<Gid>),
     /// `lookup NAME` at input position `pos`
     Nested { pos: usize, lookup: usize },
 }
@@ -102,10 +104,35 @@ pub enum RRule {
     },
 }
 
+/// A lookup flag after class resolution: the plain bits and the mark classes (sorted glyph
+/// lists) of `MarkAttachmentType` / `UseMarkFilteringSet`.
+#[derive(Clone, Debug, Default, PartialEq, Eq)]
+pub struct RFlag {
+    pub bits: u16,
+    pub mark_attach: Option<Vec<Gid>>,
+    pub mark_filter: Option<Vec<Gid>>,
+}
+
+impl RFlag {
+    pub fn plain(bits: u16) -> Self {
+        RFlag {
+            bits,
+            mark_attach: None,
+            mark_filter: None,
+        }
+    }
+    pub fn is_zero(&self) -> bool {
+        self.bits == 0 && self.mark_attach.is_none() && self.mark_filter.is_none()
+    }
+}
+
 #[derive(Clone, Debug)]
 pub struct RLookup {
     pub kind: Kind,
+    /// the plain flag bits (same as `filter.bits`)
     pub flag: u16,
+    /// the whole flag, including the mark classes
+    pub filter: RFlag,
     pub rules: Vec<RRule>,
     pub name: Option<String>,
 }
@@ -123,14 +150,16 @@ pub struct Resolved {
     pub declared: Vec<LangSys>,
 }
 
-#[derive(Clone, Copy, Debug, PartialEq, Eq)]
+#[derive(Clone, Debug, PartialEq, Eq)]
 enum FlagState {
-    Known(u16),
+    Known(RFlag),
     Unknown,
 }
 
 struct Resolver {
     classes: HashMap<String, Vec<Gid>>,
+    /// the classes named by MarkAttachmentType statements so far
+    mat_classes: Vec<Vec<Gid>>,
     out: Resolved,
 }
 
@@ -180,6 +209,55 @@ impl Resolver {
             return amb("glyph class with a repeated glyph");
         }
         Ok(v)
+    }
+
+    /// A mark class operand of a lookupflag statement, as a sorted glyph list.
+    fn mark_class(&self, g: &Gs) -> Result<Vec<Gid>, Reject> {
+        let mut v = self.expand(g)?;
+        if v.iter().any(|g| gdef_class(*g) != 3) {
+            // only marks are filtered; what a non-mark member means is not modelled
+            return amb("mark class of a lookupflag containing a glyph that is not a mark");
+        }
+        v.sort();
+        Ok(v)
+    }
+
+    fn resolve_flag(&mut self, f: &LFlag) -> Result<RFlag, Reject> {
+        if f.bits & !(FLAG_RIGHT_TO_LEFT | FLAG_IGNORE_BASE_GLYPHS | FLAG_IGNORE_LIGATURES | FLAG_IGNORE_MARKS) != 0 {
+            return amb("lookupflag bits outside the four named flags");
+        }
+        let mark_attach = match &f.mark_attach {
+            Some(c) => Some(self.mark_class(c)?),
+            None => None,
+        };
+        let mark_filter = match &f.mark_filter {
+            Some(c) => Some(self.mark_class(c)?),
+            None => None,
+        };
+        if mark_attach.is_some() && mark_filter.is_some() {
+            // OpenType states both conditions independently; shaping engines let the
+            // filtering set take precedence
+            return amb("MarkAttachmentType together with UseMarkFilteringSet");
+        }
+        if let Some(c) = &mark_attach {
+            // spec 4.d: "The glyph sets of the referenced classes must not overlap"
+            for other in &self.mat_classes {
+                if other != c && !disjoint(other, c) {
+                    return ill("MarkAttachmentType classes overlap");
+                }
+            }
+            if !self.mat_classes.contains(c) {
+                if self.mat_classes.len() >= 15 {
+                    return ill("more than 15 MarkAttachmentType classes");
+                }
+                self.mat_classes.push(c.clone());
+            }
+        }
+        Ok(RFlag {
+            bits: f.bits,
+            mark_attach,
+            mark_filter,
+        })
     }
 
     fn single_map(&self, from: &Gs, to: &Gs) -> Result<Vec<(Gid, Gid)>, Reject> {
@@ -296,6 +374,27 @@ impl Resolver {
                     input: in_sets,
                     ahead: self.expand_seq(ahead)?,
                     actions,
+                    is_ignore: false,
+                }
+            }
+            Rule::ChainMultiple {
+                back,
+                input,
+                ahead,
+                to,
+            } => {
+                if to.len() < 2 {
+                    return amb("multiple substitution with fewer than two output glyphs");
+                }
+                let input = self.expand(&Gs::G(*input))?;
+                for g in to {
+                    self.expand(&Gs::G(*g))?;
+                }
+                RRule::Chain {
+                    back: self.expand_seq(back)?,
+                    input: vec![input],
+                    ahead: self.expand_seq(ahead)?,
+                    actions: vec![Action::InlineMultiple(to.clone())],
                     is_ignore: false,
                 }
             }
@@ -462,11 +561,16 @@ impl Resolver {
         let mut kind: Option<Kind> = None;
         for s in body {
             match s {
-                Stmt::LookupFlag(f) => {
+                Stmt::LookupFlag(_) | Stmt::LookupFlagEx(_) => {
                     if !rules.is_empty() {
                         return amb("lookupflag after rules inside a lookup block");
                     }
-                    flag = FlagState::Known(*f);
+                    let f = match s {
+                        Stmt::LookupFlag(bits) => self.resolve_flag(&LFlag::bits(*bits))?,
+                        Stmt::LookupFlagEx(f) => self.resolve_flag(f)?,
+                        _ => unreachable!(),
+                    };
+                    flag = FlagState::Known(f);
                     had_flag_stmt = true;
                 }
                 Stmt::Rule(r) => {
@@ -491,7 +595,8 @@ impl Resolver {
         };
         let l = RLookup {
             kind,
-            flag,
+            flag: flag.bits,
+            filter: flag,
             rules,
             name: Some(name.to_string()),
         };
@@ -521,7 +626,7 @@ impl Resolver {
         }
         let mut cur: Option<LangSys> = None;
         let mut seen: Vec<LangSys> = vec![];
-        let mut flag = FlagState::Known(0);
+        let mut flag = FlagState::Known(RFlag::default());
         // the open anonymous lookup, if the previous statement was a rule
         let mut open: Option<usize> = None;
 
@@ -561,33 +666,39 @@ impl Resolver {
                             return amb("single substitution next to multiple/ligature substitution outside a lookup block");
                         }
                     }
-                    let FlagState::Known(f) = flag else {
+                    let FlagState::Known(f) = flag.clone() else {
                         return amb("rule after a lookup block that set a lookupflag, without a new lookupflag statement");
                     };
                     let idx = self.out.lookups.len();
                     self.out.lookups.push(RLookup {
                         kind: k,
-                        flag: f,
+                        flag: f.bits,
+                        filter: f,
                         rules: vec![rr],
                         name: None,
                     });
                     register(&mut map, &cur, &declared, idx);
                     open = Some(idx);
                 }
-                Stmt::LookupFlag(f) => {
-                    if open.is_some() && flag == FlagState::Known(*f) {
+                Stmt::LookupFlag(_) | Stmt::LookupFlagEx(_) => {
+                    let f = match s {
+                        Stmt::LookupFlag(bits) => self.resolve_flag(&LFlag::bits(*bits))?,
+                        Stmt::LookupFlagEx(f) => self.resolve_flag(f)?,
+                        _ => unreachable!(),
+                    };
+                    if open.is_some() && flag == FlagState::Known(f.clone()) {
                         // new lookup (feaLib) or not (fea-rs)?
                         return amb("lookupflag statement that does not change the flag between rules");
                     }
-                    flag = FlagState::Known(*f);
+                    flag = FlagState::Known(f);
                     open = None;
                 }
                 Stmt::Lookup { name, body } => {
                     open = None;
                     // spec: "defaults to 0 at the start of a named lookup block"; feaLib and
                     // fea-rs inherit the feature's current flag. Only flag 0 is unambiguous.
-                    let inherited = match flag {
-                        FlagState::Known(0) => FlagState::Known(0),
+                    let inherited = match &flag {
+                        FlagState::Known(f) if f.is_zero() => FlagState::Known(RFlag::default()),
                         _ => FlagState::Unknown,
                     };
                     let (idx, had_flag) = self.named_block(name, body, inherited)?;
@@ -604,14 +715,14 @@ impl Resolver {
                     // spec: the lookupflag attribute stays "until a lookup reference
                     // statement is encountered that changes it"; implementations do not
                     // change it. Unknown unless both readings coincide.
-                    if flag != FlagState::Known(self.out.lookups[idx].flag) {
+                    if flag != FlagState::Known(self.out.lookups[idx].filter.clone()) {
                         flag = FlagState::Unknown;
                     }
                     register(&mut map, &cur, &declared, idx);
                 }
                 Stmt::Script(tag) => {
                     open = None;
-                    if flag != FlagState::Known(0) {
+                    if flag != FlagState::Known(RFlag::default()) {
                         return amb("script statement while a lookupflag is set");
                     }
                     let key = (tag.clone(), "dflt".to_string());
@@ -624,7 +735,7 @@ impl Resolver {
                 }
                 Stmt::Language { tag, exclude_dflt } => {
                     open = None;
-                    if flag != FlagState::Known(0) {
+                    if flag != FlagState::Known(RFlag::default()) {
                         return amb("language statement while a lookupflag is set");
                     }
                     let Some((script, _)) = cur.clone() else {
@@ -671,6 +782,7 @@ impl Resolver {
 pub fn resolve(p: &Program) -> Result<Resolved, Reject> {
     let mut r = Resolver {
         classes: HashMap::new(),
+        mat_classes: vec![],
         out: Resolved::default(),
     };
     let mut seen_other = false;
@@ -702,7 +814,7 @@ pub fn resolve(p: &Program) -> Result<Resolved, Reject> {
             Top::Gdef => seen_other = true,
             Top::Lookup { name, body } => {
                 seen_other = true;
-                r.named_block(name, body, FlagState::Known(0))?;
+                r.named_block(name, body, FlagState::Known(RFlag::default()))?;
             }
             Top::Feature { tag, body } => {
                 seen_other = true;
@@ -732,22 +844,49 @@ pub struct Trace {
     /// a rule matched across at least one glyph made invisible by the lookup flag
     pub skip_mattered: u32,
     pub ligature_longest_won: u32,
+    /// as `skip_mattered`, in a lookup with MarkAttachmentType or UseMarkFilteringSet
+    pub mark_class_skip_mattered: u32,
 }
 
-fn skipped(flag: u16, g: Gid) -> bool {
-    flag & FLAG_IGNORE_MARKS != 0 && gdef_class(g) == 3
+/// OpenType "LookupFlag": IgnoreBaseGlyphs / IgnoreLigatures / IgnoreMarks make the glyphs
+/// of GDEF class 1 / 2 / 3 invisible; of the remaining marks a mark filtering set keeps
+/// only its members, a mark attachment type only the marks of that class.
+fn skipped(flag: &RFlag, g: Gid) -> bool {
+    let class = gdef_class(g);
+    if flag.bits & FLAG_IGNORE_BASE_GLYPHS != 0 && class == 1 {
+        return true;
+    }
+    if flag.bits & FLAG_IGNORE_LIGATURES != 0 && class == 2 {
+        return true;
+    }
+    if flag.bits & FLAG_IGNORE_MARKS != 0 && class == 3 {
+        return true;
+    }
+    if class == 3 {
+        if let Some(set) = &flag.mark_filter {
+            if !set.contains(&g) {
+                return true;
+            }
+        }
+        if let Some(cls) = &flag.mark_attach {
+            if !cls.contains(&g) {
+                return true;
+            }
+        }
+    }
+    false
 }
 
-fn next_visible(buf: &[OutGlyph], from: usize, flag: u16) -> Option<usize> {
+fn next_visible(buf: &[OutGlyph], from: usize, flag: &RFlag) -> Option<usize> {
     (from..buf.len()).find(|&i| !skipped(flag, buf[i].gid))
 }
 
-fn prev_visible(buf: &[OutGlyph], before: usize, flag: u16) -> Option<usize> {
+fn prev_visible(buf: &[OutGlyph], before: usize, flag: &RFlag) -> Option<usize> {
     (0..before).rev().find(|&i| !skipped(flag, buf[i].gid))
 }
 
 /// Match `sets` against the visible glyphs starting with the glyph at `start` exactly.
-fn match_from(buf: &[OutGlyph], start: usize, sets: &[&[Gid]], flag: u16) -> Option<Vec<usize>> {
+fn match_from(buf: &[OutGlyph], start: usize, sets: &[&[Gid]], flag: &RFlag) -> Option<Vec<usize>> {
     let mut pos = Vec::with_capacity(sets.len());
     let mut cur = start;
     for (k, set) in sets.iter().enumerate() {
@@ -854,7 +993,7 @@ impl Resolved {
         buf: &mut Vec<OutGlyph>,
         trace: &mut Trace,
     ) -> Result<(), Reject> {
-        let flag = self.lookups[li].flag;
+        let flag = &self.lookups[li].filter;
         let mut i = 0;
         while i < buf.len() {
             if skipped(flag, buf[i].gid) {
@@ -883,7 +1022,8 @@ impl Resolved {
         trace: &mut Trace,
     ) -> Result<Option<Applied>, Reject> {
         let l = &self.lookups[li];
-        let flag = l.flag;
+        let flag = &l.filter;
+        let has_mark_class = flag.mark_attach.is_some() || flag.mark_filter.is_some();
         let g = buf[i].gid;
         match l.kind {
             Kind::Single => {
@@ -945,6 +1085,9 @@ impl Resolved {
                 if n_matching > 1 {
                     trace.ligature_longest_won += 1;
                 }
+                if has_mark_class && pos.windows(2).any(|w| w[1] != w[0] + 1) {
+                    trace.mark_class_skip_mattered += 1;
+                }
                 Ok(Some(self.ligate(buf, &pos, to, trace)))
             }
             Kind::SinglePos => {
@@ -985,6 +1128,9 @@ impl Resolved {
                             trace.rules_fired += 1;
                             if j > i + 1 {
                                 trace.skip_mattered += 1;
+                                if has_mark_class {
+                                    trace.mark_class_skip_mattered += 1;
+                                }
                             }
                             // no value for the second glyph: it is the next first glyph
                             return Ok(Some(Applied {
@@ -1057,6 +1203,9 @@ impl Resolved {
                     trace.contextual_fired += 1;
                     if skipped_any {
                         trace.skip_mattered += 1;
+                        if has_mark_class {
+                            trace.mark_class_skip_mattered += 1;
+                        }
                     }
                     if *is_ignore {
                         trace.ignore_fired += 1;
@@ -1079,13 +1228,23 @@ impl Resolved {
                                 total_delta += a.delta;
                                 end = (end as isize + a.delta) as usize;
                             }
+                            Action::InlineMultiple(to) => {
+                                let p = pos[0];
+                                let adj = buf[p].adj;
+                                let new: Vec<OutGlyph> =
+                                    to.iter().map(|g| OutGlyph { gid: *g, adj }).collect();
+                                buf.splice(p..p + 1, new);
+                                let d = to.len() as isize - 1;
+                                total_delta += d;
+                                end = (end as isize + d) as usize;
+                            }
                             Action::Nested { pos: k, lookup } => {
                                 if total_delta != 0 {
                                     return amb("nested lookup after a nested lookup that changed the string length");
                                 }
                                 let p = pos[*k];
                                 let nl = &self.lookups[*lookup];
-                                if skipped(nl.flag, buf[p].gid) {
+                                if skipped(&nl.filter, buf[p].gid) {
                                     return amb("nested lookup applied at a glyph its own flag ignores");
                                 }
                                 if let Some(ap) = self.apply_at(*lookup, buf, p, trace)? {
@@ -1248,6 +1407,90 @@ mod tests {
         assert_eq!(r.active("latn", "TRK").0, vec![0, 1]);
         assert_eq!(r.active("latn", "dflt").0, vec![0]);
         assert_eq!(r.active("DFLT", "dflt").0, vec![0]);
+    }
+
+    #[test]
+    fn mark_filtering_set_and_attachment_type() {
+        let lig = |c: Vec<Gid>, to| {
+            Stmt::Rule(Rule::Ligature { comps: c.into_iter().map(Gs::G).collect(), to })
+        };
+        let umfs = |c: Vec<Gid>| {
+            Stmt::LookupFlagEx(LFlag { bits: 0, mark_attach: None, mark_filter: Some(Gs::Lit(c)) })
+        };
+        let mat = |c: Vec<Gid>| {
+            Stmt::LookupFlagEx(LFlag { bits: 0, mark_attach: Some(Gs::Lit(c)), mark_filter: None })
+        };
+        // only acutecomb is seen: gravecomb is skipped, acutecomb blocks the match
+        for flag in [umfs(vec![G_ACUTE]), mat(vec![G_ACUTE])] {
+            let p = feat(vec![flag, lig(vec![G_A, G_B], G_C)]);
+            assert_eq!(gids(&run(&p, &[G_A, G_GRAVE, G_B])), vec![G_C, G_GRAVE]);
+            assert_eq!(gids(&run(&p, &[G_A, G_ACUTE, G_B])), vec![G_A, G_ACUTE, G_B]);
+            assert_eq!(gids(&run(&p, &[G_A, G_FF, G_B])), vec![G_A, G_FF, G_B]);
+        }
+        // a change of the set alone starts a new lookup with its own filter
+        let p = feat(vec![
+            umfs(vec![G_ACUTE]),
+            lig(vec![G_A, G_B], G_C),
+            umfs(vec![G_GRAVE]),
+            lig(vec![G_B, G_A], G_D),
+        ]);
+        let r = resolve(&p).unwrap();
+        assert_eq!(r.lookups.len(), 2);
+        assert_eq!(r.lookups[0].filter.mark_filter, Some(vec![G_ACUTE]));
+        assert_eq!(r.lookups[1].filter.mark_filter, Some(vec![G_GRAVE]));
+        assert_eq!(gids(&run(&p, &[G_B, G_ACUTE, G_A])), vec![G_D, G_ACUTE]);
+        assert_eq!(gids(&run(&p, &[G_B, G_GRAVE, G_A])), vec![G_B, G_GRAVE, G_A]);
+        // the same set again does not say whether a new lookup starts
+        let p = feat(vec![
+            umfs(vec![G_ACUTE, G_GRAVE]),
+            lig(vec![G_A, G_B], G_C),
+            umfs(vec![G_GRAVE, G_ACUTE]),
+            lig(vec![G_B, G_A], G_D),
+        ]);
+        assert!(matches!(resolve(&p), Err(Reject::Ambiguous(_))));
+        // MarkAttachmentType classes must not overlap
+        let p = feat(vec![
+            mat(vec![G_ACUTE, G_GRAVE]),
+            lig(vec![G_A, G_B], G_C),
+            mat(vec![G_GRAVE]),
+            lig(vec![G_B, G_A], G_D),
+        ]);
+        assert!(matches!(resolve(&p), Err(Reject::IllFormed(_))));
+        // IgnoreLigatures / IgnoreBaseGlyphs
+        let p = feat(vec![Stmt::LookupFlag(FLAG_IGNORE_LIGATURES), lig(vec![G_A, G_B], G_C)]);
+        assert_eq!(gids(&run(&p, &[G_A, G_FF, G_B])), vec![G_C, G_FF]);
+        let p = feat(vec![
+            Stmt::LookupFlag(FLAG_IGNORE_BASE_GLYPHS),
+            Stmt::Rule(Rule::Single { from: Gs::G(G_A), to: Gs::G(G_B) }),
+        ]);
+        assert_eq!(gids(&run(&p, &[G_A, G_FF])), vec![G_A, G_FF]);
+    }
+
+    #[test]
+    fn inline_multiple_and_first_matching_inline_class_rule() {
+        let p = feat(vec![Stmt::Rule(Rule::ChainMultiple {
+            back: vec![],
+            input: G_A,
+            ahead: vec![Gs::G(G_B)],
+            to: vec![G_C, G_D],
+        })]);
+        assert_eq!(gids(&run(&p, &[G_A, G_B, G_A])), vec![G_C, G_D, G_B, G_A]);
+        assert_eq!(
+            Rule::ChainMultiple { back: vec![Gs::G(G_D)], input: G_A, ahead: vec![], to: vec![G_C, G_D] }.to_fea(),
+            "sub d a' by c d;"
+        );
+        let chain = |back: Gid, marked: Vec<Gid>, by: Gid| {
+            Stmt::Rule(Rule::Chain {
+                back: vec![Gs::G(back)],
+                input: vec![(Gs::Lit(marked), vec![])],
+                ahead: vec![],
+                by: Some(Gs::G(by)),
+            })
+        };
+        // sub d [a b]' by f_f; sub f_f [c b]' by d;
+        let p = feat(vec![chain(G_D, vec![G_A, G_B], G_FF), chain(G_FF, vec![G_C, G_B], G_D)]);
+        assert_eq!(gids(&run(&p, &[G_D, G_B])), vec![G_D, G_FF]);
+        assert_eq!(gids(&run(&p, &[G_FF, G_B])), vec![G_FF, G_D]);
     }
 
     #[test]
